@@ -45,6 +45,13 @@ def _classes(o, spec, r):
     return byp
 
 
+def run_core_assemblies(spec):
+    """Every assembly of a core (several of one type, identical and nearly identical twins included), adiabatic walls,
+    constant properties: all the heat delivered to an assembly is in its own flowing coolant at the outlet."""
+    from . import C02
+    return C02.run_adiabatic(spec)
+
+
 def run_const(spec):
     """Constant-property coolant: balance to round-off at every step."""
     o = Outcome()
@@ -291,6 +298,10 @@ def parts(tier):
                                           conv_approx=True, tol=True, regions=True, lowfi=True,
                                           regimes=("low", "lam", "tra", "tur")),
              examples=128 if q else 4000),
+        Part("core_assemblies_adiabatic", run_core_assemblies,
+             strategy=gen.core_spec(core_rings=(2, 2), n_types=(1, 2), rings=(2, 4), ducts=(1, 3), gap_models=("none",),
+                                    n_steps=(25, 60), regimes=("low", "lam", "tra", "tur"), regions=True, twins=True),
+             examples=48 if q else 1500, timeout=120),
         Part("exchange_probe", run_exchange, strategy=exchange_cases(), examples=64 if q else 1500),
         Part("tdep_halving", run_tdep,
              strategy=gen.single_assembly(rings=(2, 4) if q else (2, 6), ducts=(1, 3), gap_model="none",
